@@ -18,7 +18,7 @@ pub fn run_resolved(c: &RawCase) -> (CCfg, Verdict, Vec<Step>, Run) {
             matches!(&s.verdict, Verdict::Either(r) if r != "after_unconstrained_call") && !decisions.contains_key(i)
         });
         match pending {
-            Some((i, _)) if decisions.len() < 16 => match run.results.get(i) {
+            Some((i, _)) if decisions.len() < 64 => match run.results.get(i) {
                 Some(r) if r.is_ok() || r.is_err() => {
                     decisions.insert(i, r.is_ok());
                 }
